@@ -173,3 +173,77 @@ def r03_9_untrusted_guard(ctx: Ctx) -> RuleResult:
             else:
                 rr.fail(f.qual, f"the trusted constructor receives `{d}` but the range test constrains {sorted(set(lower + upper)) or 'nothing'} - not the stored floor-day count of `{d}` on both sides", ctx.loc(f, c))
     return rr
+
+
+@rule("C03")
+def r03_10_wraps(ctx: Ctx) -> RuleResult:
+    from ..numeric import check_wraps
+
+    rr = RuleResult("R03.10", "C#-style wrap-around helpers are only applied to quantities proved inside the wrapped type's range (where they are the identity) or in reviewed decoders", min_instances=8)
+    check_wraps(ctx, rr)
+    return rr
+
+
+TRUSTED_REVIEWED = {
+    "_LocalInstant._minus_zero_offset": "re-labels the local instant's own duration, which every _LocalInstant constructor already bounds to the same day range (LocalDate day numbers / the checked _ctor); used for the zone-mapping first guess (R11.8)",
+}
+
+
+@rule("C03")
+def r03_11_trusted_instants(ctx: Ctx) -> RuleResult:
+    """`Instant._from_trusted_duration` performs no validation: whoever calls it must have bounded the duration's floor-day count
+    to the Instant range.  Each call site is analysed in its caller with unconstrained parameters; the interval of the duration's
+    day field at the call (after the caller's own range checks) must lie inside [MIN_DAYS, MAX_DAYS].  The floor adjustment of the
+    from_<unit> factories costs the interval domain one day at the lower edge (the relation 'negative remainder implies quotient
+    above the minimum' is not expressible), so the lower bound is checked with one day of slack - a guard that uses the bounds of
+    a different unit is off by a factor of 1000 or more."""
+    from ..absint import Iv, Obj
+    from ..oblig import interp
+
+    rr = RuleResult("R03.11", "every call of the unvalidated Instant constructor is preceded by a range check that bounds the duration to the Instant range", min_instances=4)
+    M = ctx.M
+    ins = M.cls("Instant")
+    MIN = M.fold_class_const("Instant", "_MIN_DAYS")
+    MAX = M.fold_class_const("Instant", "_MAX_DAYS")
+    if not (isinstance(MIN, int) and isinstance(MAX, int)):
+        raise AnalysisError("Instant._MIN_DAYS / _MAX_DAYS not foldable")
+    target = M.find_method(ins, "_from_trusted_duration")
+    if target is None:
+        raise AnalysisError("Instant._from_trusted_duration missing")
+    from ..kit import own_nodes
+
+    for f in sorted(set(M.func_of_node.values()), key=lambda x: x.qual):
+        if isinstance(f.node, ast.Lambda) or f is target:
+            continue
+        sites = [c for c in own_nodes(f.node) if isinstance(c, ast.Call) and unparse(c.func).endswith("_from_trusted_duration")]
+        if not sites:
+            continue
+        I = interp(ctx)
+        got: dict[int, list] = {}
+
+        def on_call(c, callee, bound, st, fn, _got=got, _f=f):  # type: ignore[no-untyped-def]
+            if callee is target and fn is _f:
+                _got.setdefault(id(c), []).append(bound.get("duration"))
+
+        I.on_call = on_call
+        I.analyse(f)
+        rr.states += I.steps
+        for c in sites:
+            rr.inst()
+            vals = got.get(id(c), [])
+            bad = None
+            for v in vals:
+                d = None
+                if isinstance(v, Obj):
+                    d = v.fields.get("_floor_days") or v.fields.get(mangle("Duration", "__days"))
+                if not (isinstance(d, Iv) and d.lo >= MIN - 1 and d.hi <= MAX):
+                    bad = repr(d) if d is not None else repr(v)
+            if f.qual in TRUSTED_REVIEWED:
+                rr.ok({"caller": f.qual, "why": TRUSTED_REVIEWED[f.qual]})
+            elif not vals:
+                rr.fail(f.qual, f"`{unparse(c)[:70]}` not reached by the analysis", ctx.loc(f, c))
+            elif bad:
+                rr.fail(f.qual, f"`{unparse(c)[:70]}` hands the unvalidated constructor a duration whose day count is only known to be in {bad}, not inside [{MIN}, {MAX}]", ctx.loc(f, c))
+            else:
+                rr.ok({"caller": f.qual, "site": unparse(c)[:60]})
+    return rr
